@@ -2,5 +2,6 @@ import TinsModel.Props.C04
 #print axioms Tins.Props.C04.be_field_truncates
 #print axioms Tins.Props.C04.l2_built_packet_reparse
 #print axioms Tins.Props.C04.built_packet_reparse
+#print axioms Tins.Props.C04.built_packet_reparse_entry
 #print axioms Tins.Props.C04.built_packet_reparse_net
 #print axioms Tins.Props.C04.built_packet_serializes_all
